@@ -69,7 +69,7 @@ def obligations(tier):
     # the same step with the walker's branches explored path by path (forking) instead of merged
     split(obs, "vec/step-forked", "ob_vec", {"part": "step", "fork_ifs": True}, GROUPS[1:], timeout=to, weight=5, fork=True, max_paths=32)
     # ... and after an earlier plan for another record length in the same process (module-level state must not leak)
-    split(obs, "vec/step-after-prior-plan", "ob_vec", {"part": "step", "fork_ifs": True, "prior": True}, ([GROUPS[1]] if tier == "quick" else [GROUPS[1], GROUPS[4]]), timeout=min(to, 20), weight=6, fork=True, max_paths=48, limit=(300 if tier == "quick" else 1200))
+    split(obs, "vec/step-after-prior-plan", "ob_vec", {"part": "step", "fork_ifs": True, "prior": True}, [GROUPS[1], GROUPS[4]], timeout=min(to, 20), weight=6, fork=True, max_paths=48, limit=(600 if tier == "quick" else 1200))
     if tier == "thorough":
         split(obs, "new/step", "ob_new", {"part": "step"}, GROUPS, timeout=to, weight=5)
     else:
